@@ -44,6 +44,8 @@ ASSUMPTIONS = [
     "animals are separated by more than the crop diagonal (top-down), so 'which instance is centred' is unambiguous",
     "sleap-io opencv image plugin returns negatively strided RGB views that torch.from_numpy rejects: the harness selects the imageio plugin (public sleap-io switch)",
     "blob (1-channel) frames are uint8: their flat top of radius 0.063*sigma px is added to the tolerance",
+    "blob frames whose bump would differ by < 2 grey levels between the best lattice cell of the FINER stage and its neighbour (worst case of the general-position class) are rejected: after uint8 quantisation such a bump can be a plateau, i.e. not the ideal map the statement presupposes",
+    "top-down layouts are rejected unless every keypoint lies within (crop/2 - 3 cells - 2 px)/(scale2*eff) - half a centroid-stage cell of its anchor: the crop is centred on the DETECTED centroid, an animal that may not fit the window is outside the domain",
     "ground-truth-centroid mode (centroid_config=None) is outside the statement (network-predicted centroids) and not exercised",
 ]
 
@@ -171,6 +173,61 @@ def border_margin_violated(case):
     return None
 
 
+def crop_extent(case):
+    """Largest per-axis distance (original px) a keypoint may have from its animal's anchor so that it is certainly
+    inside the crop window with 3 output cells + 2 px to spare: half the crop side in original px, minus that slack,
+    minus the worst-case localisation error of the centroid stage (half a centroid-stage cell; the crop is centred on
+    the DETECTED centroid, not on the true anchor).  Returns (ext_x, ext_y)."""
+    eff = sizematch(case["h"], case["w"], case["max_h"], case["max_w"])[0]
+    s2 = case["scale2"] * eff
+    cell1 = case["stride"] / (case["scale"] * eff)
+    ch, cw = case["crop"], case.get("crop_w") or case["crop"]
+    slack = 3.0 * case["stride2"] + 2.0
+    return (cw / 2.0 - slack) / s2 - cell1 / 2.0, (ch / 2.0 - slack) / s2 - cell1 / 2.0
+
+
+def crop_extent_violated(case):
+    """An animal that does not fit the crop window cannot be recovered by a crop-based pipeline: such layouts are
+    outside the property's domain (documented assumption), so they are rejected, not judged."""
+    if case["kind"] != "topdown":
+        return None
+    ex, ey = crop_extent(case)
+    a = case.get("anchor")
+    for animals in case["frames"]:
+        for an in animals:
+            vis = [p for p in an if p is not None]
+            if not vis:
+                continue
+            if a is not None and an[a] is not None:
+                c = an[a]
+            else:
+                xs, ys = [p[0] for p in vis], [p[1] for p in vis]
+                c = [(min(xs) + max(xs)) / 2, (min(ys) + max(ys)) / 2]
+            for p in vis:
+                if abs(p[0] - c[0]) > ex + 1e-6 or abs(p[1] - c[1]) > ey + 1e-6:
+                    return "animal-may-not-fit-the-crop-window"
+    return None
+
+
+def blob_too_flat(case):
+    """uint8 blob frames: the centroid / keypoint stage with the FINER output cell must still see a strictly peaked
+    bump after quantisation to 1/255.  Worst case (general position: the best lattice cell is within 0.45 cell of the
+    centre per axis, its lattice neighbour at >= 0.55 cell): the two values differ by
+    exp(-(0.45 c)^2 / 2 sigma^2) - exp(-(0.55 c)^2 / 2 sigma^2); below 2 grey levels the quantised bump can have a
+    plateau over two lattice cells (no strict local maximum - legitimately nothing to detect), so such layouts are
+    outside the domain of the ideal-network assumption."""
+    if case.get("image") != "blob":
+        return None
+    eff = sizematch(case["h"], case["w"], case["max_h"], case["max_w"])[0]
+    cells = [case["stride"] / (case["scale"] * eff)]
+    if case["kind"] == "topdown":
+        cells.append(case["stride2"] / (case["scale2"] * eff))
+    c = min(cells)
+    sg = float(case["blob_sigma"])
+    delta = math.exp(-((0.45 * c) ** 2) / (2 * sg * sg)) - math.exp(-((0.55 * c) ** 2) / (2 * sg * sg))
+    return "blob-too-flat-for-the-finer-stage-after-uint8-quantisation" if delta * 255.0 < 2.0 else None
+
+
 def stage_sigma(stride, s_total):
     """sigma in ORIGINAL px = SIGMA_CELLS output cells."""
     return SIGMA_CELLS * stride / s_total
@@ -294,10 +351,10 @@ def evaluate(case):
         res.rejected = True  # statement: keypoint layouts in general position (a centroid half-way between two
         res.cls("rejected:centroid-not-in-general-position")  # cells is a plateau, legitimately not a strict local peak)
         return res
-    why = border_margin_violated(case)
+    why = border_margin_violated(case) or crop_extent_violated(case) or blob_too_flat(case)
     if why:
-        res.rejected = True  # documented assumption: keypoints keep >= 3 output cells from the frame border
-        res.cls("rejected:" + why)
+        res.rejected = True  # documented assumptions: keypoints keep >= 3 output cells from the frame border, and an
+        res.cls("rejected:" + why)  # animal fits its crop window even for the worst-case centroid localisation error
         return res
     d = env.scratch_dir("c02")
     try:
@@ -643,8 +700,9 @@ def strategy(tier):
         margin = 3.0 * max(cell, cell1) + 2.0 / min(1.0, s1 * eff, s_last)
         blob_sigma = max(2.0, 1.6 * max(cell, cell1))
         if kind == "topdown":
-            ext = (crop / 2.0 - 3.0 * st_last - 2.0) / (s2 * eff)  # max extent about the anchor that fits the crop (orig px)
-            ext = min(ext, 30.0)
+            # max extent about the anchor that fits the crop (orig px), less the centroid stage's localisation error
+            ext = (crop / 2.0 - 3.0 * st_last - 2.0) / (s2 * eff) - cell1 / 2.0
+            ext = max(0.5, min(ext, 30.0))
             sep = math.hypot(crop, crop_long) / (s2 * eff) + 2 * ext + 6 * max(cell, cell1)
         else:
             ext = min(h, w) / 2.0 - margin
@@ -663,6 +721,8 @@ def strategy(tier):
                 animals.append(pts)
             else:
                 k = 0 if ext < 2.0 else want
+                if n_frames > 1 and draw(st.integers(0, 3)) == 0:
+                    k = 0  # a frame without animals between frames with animals (nothing detected in that frame)
                 gx = max(1, int((w - 2 * (margin + ext)) // sep) + 1)
                 gy = max(1, int((h - 2 * (margin + ext)) // sep) + 1)
                 slots = [(ix, iy) for iy in range(gy) for ix in range(gx)]
